@@ -109,7 +109,7 @@ PROPS = {
                   "classes": ["decimal", "leading_zeros", "negative", "hex_lower", "hex_upper", "octal_lower", "octal_upper", "binary_lower", "binary_upper", "bigint", "const_ctor", "derive_small_subgroup", "reject_bigint_negative", "reject_bigint_too_wide", "reject_montfp_too_wide", "reject_montfp_too_wide_negative"]},
                  {"bin": "mon_const"}, {"bin": "mon_ff"}],
         "assumptions": BASE_ASSUME + [
-            "the const constructors Fp::new / Fp::from_sign_and_limbs (what MontFp! expands to) are const fn and therefore run the same code at run time as in constant evaluation; mon_ff drives them at run time over all 204 prime-field configurations with crafted and edge-biased integers (C20 run-time part)",
+            "the const constructors Fp::new / Fp::from_sign_and_limbs (what MontFp! expands to) are const fn and therefore run the same code at run time as in constant evaluation; mon_ff drives them at run time over all 214 prime-field configurations with crafted and edge-biased integers (C20 run-time part)",
             "the literal grid (mon_const/src/literals_gen.rs) is generated once by mon_const/gen/gen_literals.py; expected values next to each literal are Python integers; only syntax accepted by ff-macros/src/utils.rs and values below 2^(64N) are generated (anything else is a documented compile error)",
             "decimal/hex literals and small octal/binary literals are const items; every octal/binary literal is also expanded in a run-time context (text->limbs still at compile time) so that a mis-read radix is a violation instead of a build failure",
             "shipped fields: derive products are recomputed from the decoded modulus and generator (attribute strings of /repo are not embedded)",
